@@ -22,6 +22,8 @@ ELEMENTS = ("H HE LI BE B C N O F NE NA MG AL SI P S CL AR K CA SC TI V CR MN FE
 
 
 def run(ctx):
+    from xfabsa import numeric as _NA
+    _NA.alias_rule(ctx, 'C16', ['xfab/structure.py', 'xfab/atomlib.py'])
     ctx.rule("row", "nine numbers per row; key is an element symbol")
     ctx.rule("f0", "|sum a_i + c - Z| <= 0.1")
     ctx.rule("monotone", "a_i*b_i >= 0 for all i and > 0 for some i")
